@@ -309,4 +309,13 @@ def main():
 
 
 if __name__ == "__main__":
-    sys.exit(main())
+    try:
+        rc = main()
+    except SystemExit:
+        raise
+    except Exception:  # an engine error is never a verdict about the property
+        import traceback
+        traceback.print_exc()
+        log("INCONCLUSIVE engine error (see traceback)")
+        rc = 2
+    sys.exit(rc)
